@@ -84,6 +84,8 @@ theorem reimburseLoop_spec (e : Env) (pr payr : Dec) (hpr : 0 ≤ pr.raw) :
   | cons p ps ih =>
     intro tp tpay l s left l' s' hps htp htpay hr h
     unfold reimburseLoop at h
+    -- the shares and the "+1" guards are the definitions regenerated from proposal.go: spell them out
+    unfold Gen.Shield.splitPurchased Gen.Shield.splitPayout Gen.Shield.splitPurchasedPlusOne Gen.Shield.splitPayoutPlusOne at h
     unfold reimburseLog
     split at h
     · rename_i hle
